@@ -141,12 +141,14 @@ func (c *Ctx) RunSym(job SymJob) *gosym.Report {
 		c.Inconclusive("harness entry %s.%s not found", job.PkgPath, job.Entry)
 		return nil
 	}
-	saved := job.Eng.Cfg
+	cfg := job.Eng.Cfg
 	if job.Tweak != nil {
-		job.Tweak(&job.Eng.Cfg)
+		job.Tweak(&cfg)
 	}
-	rep := job.Eng.Explore(fn, Ints(job.Args...), job.Setup)
-	job.Eng.Cfg = saved
+	rep := job.Eng.Explore(fn, Ints(job.Args...), job.Setup, &cfg)
+	if os.Getenv("VERIF_VERBOSE") != "" {
+		fmt.Printf("  job %-50s paths=%-6d wall=%-8v solver=%-8v steps=%d status=%v\n", job.Name, rep.Paths, rep.Wall.Round(time.Millisecond), rep.SolverTime.Round(time.Millisecond), rep.Steps, rep.Status)
+	}
 	c.mu.Lock()
 	if c.Rep == nil {
 		c.Rep = gosym.NewReport(c.ID)
@@ -332,6 +334,8 @@ func TestVerifReplay(t *testing.T) {
 		return parseReplayOutput(out, err)
 	case "gen":
 		return replayGen(rf, modelPath, tmp)
+	case "gencmp":
+		return replayGenCmp(rf, modelPath, tmp)
 	}
 	return "error", "unknown replay kind " + rf.Spec.Kind
 }
@@ -460,4 +464,13 @@ func (c *Ctx) WriteEvidence() {
 		"violations":  len(c.Violations),
 	}
 	WriteJSON(filepath.Join(VerifDir, "evidence", c.ID+".json"), ev)
+}
+
+// NeedCovers requires each cover point to be reached by at least one job of this check.
+func (c *Ctx) NeedCovers(labels ...string) {
+	for _, l := range labels {
+		if c.Rep == nil || c.Rep.Covers[l] == 0 {
+			c.Inconclusive("cover point %q not reached by any job (vacuous check?)", l)
+		}
+	}
 }
